@@ -139,6 +139,7 @@ def shards(tier, seed):
     depth = 3 if tier == 'quick' else 4
     for i in range(n):
         out.append({'part': 'dfs', 'depth': depth, 'slice': [i, n]})
+    out += [{'part': 'dfs-header3', 'slice': [i, 8]} for i in range(8)]
     if tier == 'quick':
         out += [{'part': 'random', 'n': 1500, 'len': 40, 'sub': j} for j in range(2)]
     else:
@@ -148,6 +149,24 @@ def shards(tier, seed):
 
 def run_shard(spec, ctx):
     import hszinc
+    if spec['part'] == 'dfs-header3':
+        # a grid whose header holds the 3.0-only values: every history to depth 2 and the ones to depth 3 that empty the grid
+        ops = alphabet(v3row=8)
+        emptying = [o for o in ops if o[0] in ('clear', 'pop', 'popi', 'del', 'delslice', 'remove')]
+        n = 0
+        si, sn = spec.get('slice', [0, 1])
+        for d in (1, 2, 3):
+            for hist in itertools.product(ops, repeat=d):
+                hist = list(hist)
+                if ops.index(hist[0]) % sn != si:
+                    continue
+                if d == 3 and not (hist[1] in emptying or hist[0] in emptying):
+                    continue
+                ctx.case('header3', hist, nontrivial=changes(hist))
+                run_history(ctx, hszinc, hist, version='auto+header3')
+                n += 1
+        ctx.count('histories on a grid whose header holds the 3.0-only values', n)
+        return
     if spec['part'] == 'dfs':
         ops = alphabet(v3row=8)
         i, n = spec['slice']
@@ -166,7 +185,7 @@ def run_shard(spec, ctx):
             alphabet(rows=(4, 6), idx=(0, 2)) + alphabet(rows=(7, 1), idx=(0,))
         for hno in range(spec['n']):
             ops = base if r.random() < 0.3 else wide
-            ver = r.choice([None, '2.0', '3.0'])
+            ver = r.choice([None, '2.0', '3.0', 'auto+header3'])
             if ver != '2.0' and r.random() < 0.5:
                 ops = ops + [['append', 8], ['set', 0, 8], ['insert', 1, 8], ['extend', [8, 1]]] * 3
             hist = [r.choice(ops) for _ in range(r.randint(1, spec['len']))]
